@@ -42,6 +42,7 @@ class VerusResult:
         self.cmd = ''
         self.raw_stderr = ''
         self.func_times = {}
+        self.rejected_fns = {}  # fn key -> message: non-verification errors located inside an extracted function
 
 
 def run_verus(gen, out_path, seed=0, rlimit=None, extra=None, timeout=900):
@@ -103,6 +104,11 @@ def run_verus(gen, out_path, seed=0, rlimit=None, extra=None, timeout=900):
             else:
                 # type error, unsupported construct, name resolution, mode error...
                 res.undecided.append('verus rejected the unit (not a verification failure): %s%s' % (msg, span_str(d)))
+                for sp in d.get('spans', []):
+                    if sp.get('is_primary'):
+                        f = gen.fn_at(sp.get('line_start', 0))
+                        if f is not None:
+                            res.rejected_fns[f.key] = msg[:200]
         elif lvl == 'note' and 'Resource limit' in msg:
             res.undecided.append('verus: ' + msg)
     if js is None and not res.undecided:
